@@ -52,15 +52,15 @@ struct Case {
 struct Params { uint64_t ops; size_t mem; size_t outlen; size_t size; };
 Params pset(int api, int i) {
     static const Params A[] = { { 3, 8192, 32, 0 }, { 4, 65536, 16, 0 }, { 3, 9216 + 512, 64, 0 }, { 3, 262144, 128, 0 } };
-    static const Params S[] = { { 32768, 16777216, 32, 0 }, { 32768, 1 << 20, 16, 0 }, { 65536, 1 << 22, 64, 0 } };
+    static const Params S[] = { { 32768, 16777216, 32, 0 }, { 32768, 1 << 20, 16, 0 }, { 65536, 1 << 22, 64, 0 }, { 1048576, 33554432, 32, 0 } };     // the last one needs a 32 MiB scratch region (N = 2^15, r = 8)
     static const Params M[] = { { 0, 0, 0, 0 }, { 0, 0, 0, 1 }, { 0, 0, 0, 4095 }, { 0, 0, 0, 4096 }, { 0, 0, 0, 100000 } };
     if (is_long_api(api)) return A[i % 4];
     if (api >= SODIUM_MALLOC) return M[i % 5];
-    if (api >= SCRYPT_RAW) return S[i % 3];
+    if (api >= SCRYPT_RAW) return S[i % 4];
     Params p = A[i % 4]; if (api == PWHASH_ID || api == STR_ID || api == VERIFY_OK || api == VERIFY_BAD || api == VERIFY_ID_SPECIFIC || api == NEEDS_REHASH || api == NEEDS_REHASH_DIFF) p.ops = 1 + (p.ops % 3);
     return p;
 }
-int npsets(int api) { return is_long_api(api) ? 3 : api >= SODIUM_MALLOC ? 5 : api >= SCRYPT_RAW ? 3 : 4; }
+int npsets(int api) { return is_long_api(api) ? 3 : api >= SODIUM_MALLOC ? 5 : api >= SCRYPT_RAW ? (api == SCRYPT_LL ? 3 : 4) : 4; }
 
 // result of one library call: success flag as the API reports it, plus whether the reported success is "real"
 struct Outcome { bool reported_success; bool produced; long requests; long hits; int live_after; long anomalies; std::string anomaly; };
@@ -151,7 +151,7 @@ void explore(Ctx &ctx) {
     for (int api = 0; api < NAPI; api++)
         for (int ps = 0; ps < npsets(api); ps++) {
             if (!ctx.mine(idx++)) continue;
-            if (!ctx.thorough() && !is_alloc_api(api) && ps == 3) continue;
+            if (!ctx.thorough() && !is_alloc_api(api) && ps == 3 && api < SCRYPT_RAW) continue;
             // every backend the build can select: all features, no SIMD at all (scrypt nosse, Argon2 ref), SSSE3 only, AVX2 only
             std::vector<unsigned long> masks = { F_ALL };
             if (!is_alloc_api(api)) for (auto &m : mask_set(false)) if (m.name == "none" || m.name == "-avx2" || m.name == "-avx512f" || m.name == "-ssse3") masks.push_back(m.mask);
